@@ -19,9 +19,11 @@ package scanner
 // only annotation and text lexemes may be empty (end == begin - 1)
 //@ pred slack(t int) = (t == 5 || t == 9) ? 1 : 0
 
-//@ pred StepLink(s *Scanner) = (open(s.step) == 1 ==> s.curIndex - s.openBegin == len(spell(s.step))) && open(s.step) == s.open && s.curIndex - s.lastEnd >= back(s.step) && (strict(s.step) == 1 ==> s.openBegin < s.curIndex)
+//@ pred StepLink(s *Scanner) = (noeof(s.step) == 1 ==> s.curIndex < s.dataSize) && (open(s.step) == 1 ==> s.curIndex - s.openBegin == len(spell(s.step))) && open(s.step) == s.open && s.curIndex - s.lastEnd >= back(s.step) && (strict(s.step) == 1 ==> s.openBegin < s.curIndex)
 //@ pred StackWF(s *Scanner) = s.step != nil && need(s.step) <= len(s.stepStack) && (kw(s.step) == 1 ==> s.lastEnd >= 0)
 //@     && (forall k :: 0 <= k && k < len(s.stepStack) ==> s.stepStack[k] != nil && need(s.stepStack[k]) <= k && open(s.stepStack[k]) == 0 && back(s.stepStack[k]) <= 1 && strict(s.stepStack[k]) == 0 && (kw(s.stepStack[k]) == 1 ==> s.lastEnd >= 0))
+//@     && (below(s.step) == 1 ==> leaf(s.stepStack[len(s.stepStack)-1]) == 1)
+//@     && (forall k :: 0 <= k && k < len(s.stepStack) ==> crank(s.stepStack[k]) <= 2 && orank(s.stepStack[k]) <= 30 && noeof(s.stepStack[k]) == 0 && (below(s.stepStack[k]) == 1 ==> leaf(s.stepStack[k-1]) == 1))
 
 //@ pred EventWF(s *Scanner) = len(s.stack) <= 1
 //@     && (len(s.stack) == 1 ==> isBegin(s.stack[0].type_))
@@ -200,13 +202,18 @@ package scanner
 //@   requires s.curIndex - s.lastEnd >= back(self) && (strict(self) == 1 ==> s.openBegin < s.curIndex)
 //@   requires s.step == self || alias(s.step) == fnid(self)
 //@   requires open(self) == 1 ==> s.curIndex - s.openBegin == len(spell(self))
+//@   requires noeof(self) == 1 ==> c != 0
 //@   modifies s.step, s.stepStack, s.finds, s.curIndex, s.open, s.openBegin, s.lastEnd
+//@   decreases crank(self)
+//@   ensures [C01] ret == nil ==> 100 * (s.curIndex + 1) - orank(s.step) > 100 * old(s.curIndex) - orank(old(s.step))
 //@   ensures ret == nil ==> DataWF(s)
 //@   ensures ret == nil ==> StackWF(s)
 //@   ensures ret == nil && s.curIndex < s.dataSize ==> open(s.step) == s.open && s.curIndex + 1 - s.lastEnd >= back(s.step) && (strict(s.step) == 1 ==> s.openBegin <= s.curIndex)
 //@   ensures ret == nil ==> EventWF(s)
 //@   ensures ret == nil ==> s.lastEnd <= s.curIndex && 0 - 1 <= s.lastEnd && s.curIndex <= s.dataSize && (s.open != 0 ==> s.openBegin <= s.curIndex + 1 && s.lastEnd < s.openBegin)
 //@   ensures [C02] ret != nil ==> ret.file == s.file && ret.index <= s.dataSize
+//@   ensures [C14] ret == nil && c == 0 ==> s.open == 0
+//@   ensures ret == nil && noeof(s.step) == 1 ==> s.curIndex + 1 < s.dataSize
 //@   ensures [C14] ret == nil && s.curIndex < s.dataSize && open(s.step) == 1 ==> s.curIndex + 1 - s.openBegin == len(spell(s.step))
 //@   ensures [C14] ret == nil && old(s.open) != 1 && s.open == 1 ==> spell(s.step) == startCls(c) && s.openBegin == old(s.curIndex) && s.curIndex == old(s.curIndex)
 //@   ensures [C14] ret == nil && open(self) == 1 && s.open == 1 ==> spell(s.step) == spell(self) + cls(c, self) && s.curIndex == old(s.curIndex) && s.openBegin == old(s.openBegin)
@@ -297,6 +304,31 @@ package scanner
 //@ table kw(stepFunc) int : stateRegex=1, stateRegexBody=1, stateRegexBodyAfterSlash=1, stateRegexFirstChar=1, stateRequestBody=1, stateRequestBodyOrKeyword=1
 //@ table kw(stepFunc) int : stateResponseBody=1, stateResponseBodyOrKeyword=1, stateResultBody=1, stateSchemaClosed=1, stateTypeBody=1, stateTypeBodyOrKeyword=1
 
+// ---------------------------------------------------------------- termination (C01)
+// crank(f): call rank. A state hands its byte on only to a state of lower rank (direct call, s.step(s, c) after an
+// assignment, or the state popped from the step stack), so the delegation inside one step of Next terminates.
+// Everything on the step stack has rank <= 2; the two states that run whatever is popped (stateSingleComment,
+// stateAnnotation) have rank 3. below(f) == 1: f is one of the four body states that pop-and-delegate although they
+// can be on the stack themselves (a comment inside the body); what lies under them is a leaf (stateJSchema /
+// stateRegex, pushed by the ...BodyOrKeyword state that entered them), which delegates to nobody.
+//@ table crank(stepFunc) int : default=0
+//@ table crank(stepFunc) int : stateParameterWoQuoted=1, stateParameterOrAnnotationAfterFirstSpace=1, stateCommentOnceClosed=1, stateCommentTwiceClosed=1, stateDescriptionTextBegin=1, stateDescriptionTextBeginStarter=2
+//@ table crank(stepFunc) int : stateRegexFirstChar=1, stateRoot=1, stateHeaderBody=1, stateParamsBody=1, statePathBody=1, stateQueryBodyOrKeyword=1, stateResultBody=1
+//@ table crank(stepFunc) int : stateBodyBody=1, stateTypeBody=1, stateRequestBody=1, stateResponseBody=1
+//@ table crank(stepFunc) int : stateBodyBodyOrKeyword=2, stateTypeBodyOrKeyword=2, stateRequestBodyOrKeyword=2, stateResponseBodyOrKeyword=2
+//@ table crank(stepFunc) int : stateSingleComment=3, stateAnnotation=3, stateCommentStarted=4, stateCommentDouble=4, stateAnnotationTextStart=4
+//@ table below(stepFunc) int : default=0, stateBodyBody=1, stateTypeBody=1, stateRequestBody=1, stateResponseBody=1
+//@ table leaf(stepFunc) int : default=0, stateJSchema=1, stateRegex=1
+// orank(f): with K = 100 bytes' worth per position, 100*(dataSize + 2 - curIndex) + orank(step) decreases with every
+// iteration of the scan loop of Next, including the two rewinds: stateAnnotationSign2 steps back two bytes (net one after
+// the loop's increment) into stateParameterStart, stateDescriptionTextNewline one byte (net none) into stateExpectKeyword.
+//@ table orank(stepFunc) int : default=20, stateParameterStart=0, stateAnnotationSign2=110, stateDescriptionTextNewline=21, stateDescriptionTextBegin=21, stateDescriptionTextBeginStarter=21
+//@ table orank(stepFunc) int : stateBodyBody=30, stateTypeBody=30, stateRequestBody=30, stateResponseBody=30, stateSingleComment=30, stateAnnotation=30
+//@ table orank(stepFunc) int : stateBodyBodyOrKeyword=30, stateTypeBodyOrKeyword=30, stateRequestBodyOrKeyword=30, stateResponseBodyOrKeyword=30, stateCommentStarted=30, stateCommentDouble=30, stateAnnotationTextStart=30
+
+// noeof(f) == 1: f never runs on the end-of-input marker (it opens a lexeme on the byte it is given)
+//@ table noeof(stepFunc) int : default=0, stateParameterStart=1
+
 // back(f): bytes guaranteed between the last lexeme end and the byte f is run on (stateAnnotationSign2 rewinds by two)
 //@ table back(stepFunc) int : default=1, stateAnnotationSign2=2
 // strict(f) == 1: f runs only on bytes strictly after the beginning of the open lexeme
@@ -336,6 +368,7 @@ package scanner
 //@   ensures [C14] ret0 != nil ==> ret1 == nil && LexemeWF(ret0) && ret0.file == s.file && (ret0.type_ != 2 && ret0.type_ != 5 ==> ret0.begin <= ret0.end)
 //@   ensures [C02] ret1 != nil ==> ret0 == nil && ret1.file == s.file && ret1.index <= s.dataSize
 //@   loop 1 invariant NextInv(s)
+//@   loop 1 decreases 100 * (s.dataSize + 2 - s.curIndex) + orank(s.step)
 //@   loop 1 frame s
 //@   loop 2 frame s
 //@   loop 2 invariant DataWF(s) && StackWF(s) && EventWF(s) && 0 - 1 <= s.lastEnd && s.curIndex <= s.dataSize + 1
@@ -498,7 +531,8 @@ package scanner
 
 //@ func stateRegexBodyAfterSlash
 //@   tag C14
-//@   ensures [C14] ret == nil && s.step == stateRegexBody && s.finds == old(s.finds) && s.curIndex == old(s.curIndex)
+//@   ensures [C14] c != 0 ==> ret == nil && s.step == stateRegexBody && s.finds == old(s.finds) && s.curIndex == old(s.curIndex)
+//@   ensures [C14] c == 0 ==> ret != nil
 
 //@ func stateRegexFirstChar
 //@   tag C14
